@@ -355,7 +355,23 @@ def _crc_handler_unlinks(es, node: ast.AST) -> bool:
     return False
 
 
+def r11_8(ctx: Ctx) -> None:
+    """'with header encryption not the member names either' also when encryption is switched on after the constructor: set_encrypted_header(True)
+    sets `header_encryption` (and the encoded-header mode it needs) to True in its truthy arm; the falsy arm switches it off."""
+    f = shared.szf(ctx, "set_encrypted_header")
+    par = f.params[1] if len(f.params) > 1 else None
+    ctx.need(par is not None, "set_encrypted_header has no mode parameter")
+    def sets(attr: str, val: bool, pol: bool) -> bool:
+        return any(isinstance(n, ast.Assign) and norm(n.targets[0]) == f"self.{attr}" and isinstance(n.value, ast.Constant) and n.value.value is val
+                   and any(isinstance(cd, ast.Name) and cd.id == par and p_ == pol for cd, p_ in q.facts_at(f, n)) for n in walk(f.node))
+    ok = sets("header_encryption", True, True) and sets("encoded_header_mode", True, True) and sets("header_encryption", False, False)
+    ctx.check(ok, "R11.8", f, f.node, "set_encrypted_header(True) switches header encryption (and the encoded header) on, False switches it off",
+              "set_encrypted_header does not set `header_encryption` / `encoded_header_mode` to True for a true argument (or to False for a false one): an archive whose owner asked for "
+              "header encryption is written with readable member names", construct="set_encrypted_header arms")
+
+
 def run(ctx: Ctx) -> None:
+    r11_8(ctx)
     r11_7(ctx)
     r11_6(ctx)
     shared.exits_do_not_swallow(ctx, "R11.5")
